@@ -126,6 +126,8 @@ def step1 (s : St) (line : String) : St × String :=
   let ws := words line
   match ws with
   | ["pargc"] => (s, "ok")
+  | "ballast" :: _ => (s, "ok")
+  | ["dropballast"] => (s, "ok")
   | ["nodes"] => (s, "-")
   | "mgr" :: rest =>
     let vars := ((kv rest "vars").bind String.toNat?).getD 0
